@@ -18,6 +18,7 @@ package main
 
 import (
 	"fmt"
+	"runtime"
 	"go/constant"
 	"go/token"
 	"go/types"
@@ -383,8 +384,21 @@ func (m *Machine) enterBlock(st *State, b *ssa.BasicBlock) bool {
 		m.Aborted = fmt.Sprintf("state budget %d exhausted", m.MaxStates)
 		return false
 	}
+	if m.States%5000 == 0 {
+		// an exploration that multiplies (a recursive helper over the tree, say) must end as "undecided", not by the
+		// process being killed for memory
+		var ms runtime.MemStats
+		runtime.ReadMemStats(&ms)
+		if ms.HeapAlloc > memoryBudget {
+			m.Aborted = fmt.Sprintf("memory budget exhausted after %d abstract states", m.States)
+			return false
+		}
+	}
 	return true
 }
+
+// memoryBudget bounds the heap one exploration may use (bytes).
+var memoryBudget uint64 = 5 << 30
 
 func (m *Machine) runPath(st *State) {
 	for {
